@@ -1,7 +1,7 @@
 (* C17/ProofsWitness.v — the refutation witness of the unconditional at-most-one claim and the
    assembled statement about IncludeInvalidPolygons. *)
 From Coq Require Import ZArith String List Bool Lia.
-From Verif Require Import C17.Model C17.Spec C17.Mputil C17.Proofs C17.ProofsOpts C17.Examples.
+From Verif Require Import C17.Model C17.Spec C17.Mputil C17.Proofs C17.ProofsOpts C17.ProofsIncl C17.Examples.
 Import ListNotations.
 Open Scope Z_scope.
 
@@ -28,7 +28,7 @@ Proof.
   intros H. apply NoDup_keys_unique in H. vm_compute in H. discriminate.
 Qed.
 
-Lemma option_IncludeInvalidPolygons_partial : forall join ring_of o d,
+Lemma option_IncludeInvalidPolygons : forall join ring_of o d,
   skippable join ring_of (set_incl true o) d = skippable join ring_of (set_incl false o) d /\
   way_features join ring_of (set_incl true o) d = way_features join ring_of (set_incl false o) d /\
   node_features (set_incl true o) d = node_features (set_incl false o) d /\
@@ -37,11 +37,12 @@ Lemma option_IncludeInvalidPolygons_partial : forall join ring_of o d,
      rel_result join ring_of (set_incl true o) d r = rel_result join ring_of (set_incl false o) d r) /\
     (forall f, snd (rel_result join ring_of (set_incl false o) d r) = Some f ->
        exists g, snd (rel_result join ring_of (set_incl true o) d r) = Some (with_geom f g) /\
-                 (g = f_geom f \/ (is_mp_geom g = true /\ is_mp_geom (f_geom f) = true))).
+                 rings_sub (geom_rings (f_geom f)) (geom_rings g) = true).
 Proof.
   intros join ring_of o d.
   split; [exact (skippable_incl join ring_of o d)|].
   split; [exact (way_features_incl join ring_of o d)|].
   split; [exact (node_features_incl o d)|].
-  intros r. destruct (rel_result_incl join ring_of o d r) as [_ [H2 H3]]. split; assumption.
+  intros r. destruct (rel_result_incl join ring_of o d r) as [_ [H2 _]]. split; [exact H2|].
+  intros f Hf. exact (rel_result_incl_rings join ring_of o d r f Hf).
 Qed.
